@@ -47,6 +47,7 @@ func main() {
 	nfDump := flag.String("nf-dump", "", "internal: write the normal form with these helpers (comma separated bare names, or 'all') inlined to the directory given by -nf-out")
 	nfOut := flag.String("nf-out", "", "internal: directory for -nf-dump")
 	noNF := flag.Bool("no-normal-form", false, "decide on the text as written only")
+	refTab := flag.Bool("ref-table", false, "internal: print the reference names (functions, methods, struct fields of pkg/ggql with what identifies them) of the tree at -repo")
 	flag.Parse()
 	debug.SetGCPercent(800)
 	if *cpuprof != "" {
@@ -73,6 +74,9 @@ func main() {
 		os.Exit(doNFDump(*repo, *nfDump, *nfOut))
 	}
 	noNormalForm = *noNF
+	if *refTab {
+		os.Exit(doRefTable(*repo))
+	}
 	if *prop == "" {
 		fmt.Fprintln(os.Stderr, "usage: ggqlcheck -property Cnn [-tier quick|thorough]")
 		os.Exit(2)
@@ -86,6 +90,12 @@ func main() {
 		sort.Strings(ids)
 	}
 	exit := 0
+	if !noNormalForm {
+		referenceNames(*repo, *verif)
+		if len(baseNotes) > 0 {
+			fmt.Printf("NORMAL-FORM: names: %s\n", strings.Join(baseNotes, "; "))
+		}
+	}
 	for _, id := range ids {
 		e := runProperty(id, *tier, *repo, *verif, seed, *mutant, *list, *noControls)
 		if e > exit {
@@ -154,6 +164,9 @@ func runProperty(id, tier, repo, verif string, seed int, mutant string, list, no
 		return 1
 	}
 	extra := map[string]interface{}{}
+	if len(baseNotes) > 0 {
+		extra["reference_names"] = baseNotes
+	}
 	if !noNormalForm {
 		if rep2, note := tryNormalForms(id, tier, repo, rep, known); rep2 != nil {
 			rep = rep2
